@@ -1485,6 +1485,11 @@ fn c11_case() -> impl Strategy<Value = Case> {
 }
 
 pub fn run_c11(case: &Case) -> Outcome {
+    run_c11_with(case, true)
+}
+/// `streams_complete` = false: the stream scripts of the case are not of the "everybody reads to the end" kind (the open/close
+/// cycles of C06 end some readers early by design), so the clause that every stream task must have finished is left to C06
+pub fn run_c11_with(case: &Case, streams_complete: bool) -> Outcome {
     let run = run_case(case);
     if !run.quiescent {
         return inconclusive(&run);
@@ -1497,7 +1502,7 @@ pub fn run_c11(case: &Case) -> Outcome {
         viol!(a, format!("c11-streams:{sig}"), "{msg}");
     }
     let stuck = a.unfinished(perpetual);
-    if !stuck.is_empty() {
+    if !stuck.is_empty() && streams_complete {
         viol!(a, "c11-streams-stalled", "stream tasks {stuck:?} did not finish next to datagram traffic");
     }
     let mut boundary = false;
@@ -1595,12 +1600,32 @@ pub fn run_c11(case: &Case) -> Outcome {
 }
 
 pub fn c11(ctx: &Ctx, rep: &mut Report) {
-    rep.rule = "1-24 datagrams from either side over the full field domain (flow ids incl. 0 and the ids of the streams open on the same connection, host length 0..300 of arbitrary octets or an entry of a dictionary of 130 hosts that mean something to some layer - IP literals in every notation, bracketed IPv6 literals, names with ports, letter case, dots, control characters -, all ports, payload length {0..5,100,1500,65535}), datagram_buffer_size in {1,2,8,512}, receivers eager / idle during the burst / intermittent, 0-2 complete streams on the same connection; \
+    rep.rule = "1-24 datagrams from either side over the full field domain (flow ids incl. 0 and the ids of the streams open on the same connection, host length 0..300 of arbitrary octets or an entry of a dictionary of 130 hosts that mean something to some layer - IP literals in every notation, bracketed IPv6 literals, names with ports, letter case, dots, control characters -, all ports, payload length {0..5,100,1500,65535}), datagram_buffer_size in {1,2,8,512}, receivers eager / idle during the burst / intermittent, 0-2 complete streams on the same connection; a family in which the open/close cycles of C06 (every close order incl. aborts by either side, ids that come back) are followed by datagrams in both directions on the ids those streams used; \
                 oracle: host > 255 refused with DatagramHostTooLong and nothing on the wire, received list is a subsequence of the sent list with all four fields equal, loss only on buffer overflow (idle receiver: exactly the first `capacity`), the connection never ends and streams complete with C02/C03/C05 oracles. \
                 Non-trivial = a host or payload at a boundary (host 0/1/255/>255, payload 0-3) or a burst larger than the buffer. Distinct = distinct case value."
         .into();
     rep.assumptions = sim_assumptions();
     ctx.prop(rep, "datagrams", ctx.tier.pick(40_000, 1_200_000), 300, || with_keepalive(c11_case()), run_c11);
+    // datagram flow ids are a space of their own: a datagram may carry the number of a stream that is open, that was finished, or that
+    // either side aborted a moment ago (PROTOCOL.md). The open/close cycles of C06 (every close order, scripted ids that come back)
+    // followed, at the final quiescent point, by datagrams in both directions on the ids those streams used: every one must arrive
+    ctx.prop(rep, "ids-of-ended-streams", ctx.tier.pick(8_000, 300_000), 200, || {
+        (c06_case(), prop::collection::vec((0usize..2, 1u32..17, 0u16..4, 0u32..5), 1..=6)).prop_map(|(mut c, dgs)| {
+            let last_wake = c.events.iter().filter_map(|e| if let What::Wake(n) = e.what { Some(n) } else { None }).max().unwrap_or(1);
+            c.dgrams = dgs.into_iter().map(|(side, flow_id, host_len, data_len)| DgSpec { side, flow_id, host_len: 4 + host_len, port: 53, data_len, delay: DG_PARK + last_wake }).collect();
+            c.opts[0].dgram_buf = 8;
+            c.opts[1].dgram_buf = 8;
+            c.dg_readers = [DgReader::Eager, DgReader::Eager];
+            c
+        })
+    }, |c| {
+        let mut o = run_c11_with(c, false);
+        if matches!(o.verdict, vf_common::Verdict::Pass) {
+            o.nontrivial = true;
+            o.classes.push("datagrams-on-ids-of-ended-streams");
+        }
+        o
+    });
     // every host of the dictionary of hosts that mean something to some layer, as the whole target host of a datagram from either side
     ctx.enumerate(rep, "meaningful-hosts", vf_common::host_dictionary().len() as u64, 64, |i| {
         let n = vf_common::host_dictionary().len() as u64;
